@@ -2061,6 +2061,12 @@ func frameLayout(repo string) {
 			fail(item, "guard expressions")
 			return
 		}
+		for _, v := range []int64{idO, prO, seO, suO, noO, g1, g2, he, guards[0].c} {
+			if v < 0 {
+				fail(item, "negative offset")
+				return
+			}
+		}
 		for _, n := range []string{S, P, V} {
 			if _, ok := alt[n]; !ok {
 				fail(item, "version block does not set "+n)
@@ -2785,6 +2791,12 @@ func jt1078Layout(repo string) {
 		fail(item, "parts missing")
 		return
 	}
+	for _, v := range []int64{ivl[0][0], ivl[1][0], blO, headEnd, tsO} {
+		if v < 0 {
+			fail(item, "negative offset")
+			return
+		}
+	}
 	if c, ok := guards[1].over(endVar); !ok || c != 0 {
 		fail(item, "second guard is not `len(data) < end`")
 		return
@@ -2800,6 +2812,338 @@ func jt1078Layout(repo string) {
 }
 
 // ==== END jt1078 header layout ===============================================================================
+
+// ==== BEGIN attachment chunk header layout (builder "bodies"): attachLayout ===================================
+// attachment/stream_data_handle.go: the chunk header of the file-upload stream, base form (62 bytes) and the HLJ form
+// (length-prefixed file name).  Index expressions of the HLJ form are linear in the name length nl = data[i]; they are
+// emitted as (coefficient of nl, constant).
+//
+//	gen_attach_marker                the byte literal of HasStreamData
+//	gen_attach_base_min              c of `len(data) >= c` (HasMinHeadLen)
+//	gen_attach_base                  (field, offset, width) of Parse;  gen_attach_base_data / _head: data[c:], returned head length
+//	gen_attach_hlj_min, _len_idx     `len(data) < c` and the index of the name length byte (HasMinHeadLen)
+//	gen_attach_hlj_min2              X of `len(data) >= X`
+//	gen_attach_hlj                   (field, lo, hi) of Parse;  gen_attach_hlj_data / _head likewise
+func attachLayout(repo string) {
+	files := parseDir(filepath.Join(repo, "attachment"))
+	lin := func(a hdrLin) (string, bool) {
+		for k := range a.v {
+			if k != "nl" {
+				return "", false
+			}
+		}
+		if a.v["nl"] < 0 || a.c < 0 {
+			return "", false
+		}
+		return fmt.Sprintf("(%d, %d)", a.v["nl"], a.c), true
+	}
+	// reader(data[lo:hi]) for the readers of a chunk header
+	type rd struct {
+		field  string
+		lo, hi hdrLin
+	}
+	readOf := func(e ast.Expr, data string, env map[string]hdrLin, sym func(ast.Expr) (string, bool)) (hdrLin, hdrLin, bool) {
+		name, args, _ := hdrCall(e)
+		switch {
+		case name == "binary.BigEndian.Uint32" && len(args) == 1:
+			lo, hi, ok := hdrSlice(args[0], data, env, sym)
+			return lo, hi, ok && hi.plus(lo, -1).isConst() && hi.plus(lo, -1).c == 4
+		case name == "string" && len(args) == 1: // string(bytes.Trim(data[a:b], "\x00"))
+			n2, a2, _ := hdrCall(args[0])
+			if n2 == "bytes.Trim" && len(a2) == 2 {
+				return hdrSlice(a2[0], data, env, sym)
+			}
+		}
+		return hdrLin{}, hdrLin{}, false
+	}
+
+	// ---------------- base form
+	func() {
+		item := "attach_base"
+		hs := findFunc(files, "baseStreamDataHandle", "HasStreamData")
+		mh := findFunc(files, "baseStreamDataHandle", "HasMinHeadLen")
+		pf := findFunc(files, "baseStreamDataHandle", "Parse")
+		if hs == nil || mh == nil || pf == nil {
+			fail(item, "functions not found")
+			return
+		}
+		noSym := func(ast.Expr) (string, bool) { return "", false }
+		var marker []int64
+		ast.Inspect(hs.Body, func(n ast.Node) bool {
+			if cl, ok := n.(*ast.CompositeLit); ok && len(marker) == 0 {
+				for _, e := range cl.Elts {
+					if v, ok := intOf(e, nil); ok {
+						marker = append(marker, v)
+					}
+				}
+			}
+			return true
+		})
+		minLen := int64(-1)
+		if len(mh.Body.List) == 1 {
+			if rs, ok := mh.Body.List[0].(*ast.ReturnStmt); ok && len(rs.Results) == 1 {
+				if be, ok := rs.Results[0].(*ast.BinaryExpr); ok && be.Op == token.GEQ {
+					if n, a, _ := hdrCall(be.X); n == "len" && len(a) == 1 {
+						if v, ok := intOf(be.Y, nil); ok {
+							minLen = v
+						}
+					}
+				}
+			}
+		}
+		recv, data := hdrRecv(pf), hdrParam(pf, 0)
+		var rows []string
+		dataFrom, head := int64(-1), int64(-1)
+		for _, st := range pf.Body.List {
+			switch x := st.(type) {
+			case *ast.AssignStmt:
+				p := hdrPath(x.Lhs[0])
+				if len(x.Lhs) != 1 || len(x.Rhs) != 1 || len(p) != 2 || p[0] != recv || x.Tok != token.ASSIGN {
+					fail(item, "assignment shape")
+					return
+				}
+				if se, ok := x.Rhs[0].(*ast.SliceExpr); ok && se.High == nil && se.Low != nil { // s.Data = data[62:]
+					v, okv := intOf(se.Low, nil)
+					if id, ok := se.X.(*ast.Ident); !ok || id.Name != data || !okv {
+						fail(item, "data slice")
+						return
+					}
+					dataFrom = v
+					continue
+				}
+				lo, hi, ok := readOf(x.Rhs[0], data, nil, noSym)
+				if !ok || !lo.isConst() || !hi.isConst() {
+					fail(item, "read of "+p[1])
+					return
+				}
+				rows = append(rows, fmt.Sprintf("(%s%%string, %d, %d)", strconv.Quote(p[1]), lo.c, hi.c-lo.c))
+			case *ast.ReturnStmt:
+				if len(x.Results) != 2 {
+					fail(item, "return shape")
+					return
+				}
+				v, ok := intOf(x.Results[0], nil)
+				if !ok {
+					fail(item, "returned head length")
+					return
+				}
+				head = v
+			default:
+				fail(item, "statement shape")
+				return
+			}
+		}
+		if len(marker) == 0 || minLen < 0 || len(rows) == 0 || dataFrom < 0 || head < 0 {
+			fail(item, "parts missing")
+			return
+		}
+		fmt.Fprintf(&out, "Definition gen_attach_marker : list N := %s.\nDefinition gen_attach_base_min : N := %d.\n", nlist(marker), minLen)
+		fmt.Fprintf(&out, "Definition gen_attach_base : list (string * N * N) := [%s].\n", strings.Join(rows, "; "))
+		fmt.Fprintf(&out, "Definition gen_attach_base_data : N := %d.\nDefinition gen_attach_base_head : N := %d.\n", dataFrom, head)
+	}()
+
+	// ---------------- HLJ form
+	func() {
+		item := "attach_hlj"
+		mh := findFunc(files, "heiBiaoStreamDataHandle", "HasMinHeadLen")
+		pf := findFunc(files, "heiBiaoStreamDataHandle", "Parse")
+		if mh == nil || pf == nil {
+			fail(item, "functions not found")
+			return
+		}
+		// HasMinHeadLen: if len(data) < c { return false }; h.FileNameLen = data[i]; return len(data) >= X
+		recv, data := hdrRecv(mh), hdrParam(mh, 0)
+		sym := func(e ast.Expr) (string, bool) {
+			p := hdrPath(e)
+			if len(p) == 2 && p[0] == recv && p[1] == "FileNameLen" {
+				return "nl", true
+			}
+			return "", false
+		}
+		min1, idx1 := int64(-1), int64(-1)
+		min2 := ""
+		for _, st := range mh.Body.List {
+			switch x := st.(type) {
+			case *ast.IfStmt:
+				g, ok := hdrLenGuard(x, data, nil, sym)
+				if !ok || !g.isConst() {
+					fail(item, "HasMinHeadLen guard")
+					return
+				}
+				min1 = g.c
+			case *ast.AssignStmt:
+				ie, ok := x.Rhs[0].(*ast.IndexExpr)
+				if _, oks := sym(x.Lhs[0]); !ok || !oks {
+					fail(item, "HasMinHeadLen assignment")
+					return
+				}
+				v, okv := intOf(ie.Index, nil)
+				if !okv {
+					fail(item, "name length index")
+					return
+				}
+				idx1 = v
+			case *ast.ReturnStmt:
+				be, ok := x.Results[0].(*ast.BinaryExpr)
+				if !ok || be.Op != token.GEQ {
+					fail(item, "HasMinHeadLen return")
+					return
+				}
+				v, okv := hdrEval(be.Y, nil, sym)
+				s, oks := lin(v)
+				if !okv || !oks {
+					fail(item, "HasMinHeadLen bound")
+					return
+				}
+				min2 = s
+			default:
+				fail(item, "HasMinHeadLen statement")
+				return
+			}
+		}
+		// Parse
+		recv, data = hdrRecv(pf), hdrParam(pf, 0)
+		env := map[string]hdrLin{}
+		var rows []string
+		idx2 := int64(-1)
+		dataFrom, head := "", ""
+		add := func(f string, lo, hi hdrLin) bool {
+			a, ok1 := lin(lo)
+			b, ok2 := lin(hi)
+			if !ok1 || !ok2 {
+				fail(item, "bounds of "+f)
+				return false
+			}
+			rows = append(rows, fmt.Sprintf("(%s%%string, %s, %s)", strconv.Quote(f), a, b))
+			return true
+		}
+		for _, st := range pf.Body.List {
+			switch x := st.(type) {
+			case *ast.AssignStmt:
+				if len(x.Lhs) == 2 && len(x.Rhs) == 2 && x.Tok == token.DEFINE { // start, end := 5, 5+int(h.FileNameLen)
+					for i := range x.Lhs {
+						id, ok := x.Lhs[i].(*ast.Ident)
+						v, okv := hdrEval(x.Rhs[i], env, sym)
+						if !ok || !okv {
+							fail(item, "cursor definition")
+							return
+						}
+						env[id.Name] = v
+					}
+					continue
+				}
+				if len(x.Lhs) != 1 || len(x.Rhs) != 1 {
+					fail(item, "assignment shape")
+					return
+				}
+				if id, ok := x.Lhs[0].(*ast.Ident); ok { // start = end; end += 4
+					v, okv := hdrEval(x.Rhs[0], env, sym)
+					if _, known := env[id.Name]; !known || !okv {
+						fail(item, "cursor assignment")
+						return
+					}
+					switch x.Tok {
+					case token.ASSIGN:
+						env[id.Name] = v
+					case token.ADD_ASSIGN:
+						env[id.Name] = env[id.Name].plus(v, 1)
+					default:
+						fail(item, "cursor assignment")
+						return
+					}
+					continue
+				}
+				p := hdrPath(x.Lhs[0])
+				if len(p) != 2 || p[0] != recv || x.Tok != token.ASSIGN {
+					fail(item, "left side")
+					return
+				}
+				if _, isNl := sym(x.Lhs[0]); isNl { // h.FileNameLen = data[4]
+					ie, ok := x.Rhs[0].(*ast.IndexExpr)
+					if !ok {
+						fail(item, "name length read")
+						return
+					}
+					v, okv := intOf(ie.Index, nil)
+					if !okv {
+						fail(item, "name length index")
+						return
+					}
+					idx2 = v
+					continue
+				}
+				if cl, ok := x.Rhs[0].(*ast.CompositeLit); ok { // h.baseStreamDataHandle = baseStreamDataHandle{...}
+					for _, el := range cl.Elts {
+						kv, ok := el.(*ast.KeyValueExpr)
+						if !ok {
+							fail(item, "literal shape")
+							return
+						}
+						k := kv.Key.(*ast.Ident).Name
+						if se, ok := kv.Value.(*ast.SliceExpr); ok && se.High == nil && se.Low != nil { // Data: data[end:]
+							v, okv := hdrEval(se.Low, env, sym)
+							s, oks := lin(v)
+							if !okv || !oks {
+								fail(item, "data slice")
+								return
+							}
+							dataFrom = s
+							continue
+						}
+						if lo, hi, ok := readOf(kv.Value, data, env, sym); ok {
+							if !add(k, lo, hi) {
+								return
+							}
+							continue
+						}
+						if _, ok := intOf(kv.Value, nil); ok { // FrameSign: 808543076
+							continue
+						}
+						if q := hdrPath(kv.Value); len(q) == 2 && q[0] == recv { // FileName: h.FileName
+							continue
+						}
+						fail(item, "literal field "+k)
+						return
+					}
+					continue
+				}
+				lo, hi, ok := readOf(x.Rhs[0], data, env, sym)
+				if !ok || !add(p[1], lo, hi) {
+					if ok {
+						return
+					}
+					fail(item, "read of "+p[1])
+					return
+				}
+			case *ast.ReturnStmt:
+				if len(x.Results) != 2 {
+					fail(item, "return shape")
+					return
+				}
+				v, okv := hdrEval(x.Results[0], env, sym)
+				s, oks := lin(v)
+				if !okv || !oks {
+					fail(item, "returned head length")
+					return
+				}
+				head = s
+			default:
+				fail(item, "statement shape")
+				return
+			}
+		}
+		if min1 < 0 || idx1 < 0 || idx1 != idx2 || min2 == "" || len(rows) == 0 || dataFrom == "" || head == "" {
+			fail(item, "parts missing")
+			return
+		}
+		fmt.Fprintf(&out, "Definition gen_attach_hlj_min : N := %d.\nDefinition gen_attach_hlj_len_idx : N := %d.\nDefinition gen_attach_hlj_min2 : N * N := %s.\n", min1, idx1, min2)
+		fmt.Fprintf(&out, "Definition gen_attach_hlj : list (string * (N * N) * (N * N)) := [%s].\n", strings.Join(rows, "; "))
+		fmt.Fprintf(&out, "Definition gen_attach_hlj_data : N * N := %s.\nDefinition gen_attach_hlj_head : N * N := %s.\n", dataFrom, head)
+	}()
+	fmt.Fprintln(&out)
+}
+
+// ==== END attachment chunk header layout =====================================================================
 
 func main() {
 	repo := flag.String("repo", "/repo", "repository root")
@@ -2824,6 +3168,7 @@ func main() {
 	fixedLayouts(model) // T7 (C07)
 	frameLayout(*repo)    // header layout of the JT/T 808 frame (C01 C02 C04)
 	jt1078Layout(*repo)   // header layout of the JT/T 1078 packet (C17)
+	attachLayout(*repo)   // chunk header of the attachment stream (C15)
 	q := make([]string, len(unrecognised))
 	for i, u := range unrecognised {
 		q[i] = strconv.Quote(u) + "%string"
